@@ -106,7 +106,7 @@ def cases(draw):
         is_expr = r["targets"][0].get("kind") == "expr"
         muts = ["literal", "operator", "option", "scalar", "cflags", "debug"]
         if is_expr:
-            muts += ["points", "points", "points", "points-shape"]
+            muts += ["points", "points", "points", "points-shape", "points-reshape", "points-reshape"]
         else:
             muts += ["metadata", "degree"]
         if len(r["targets"]) == 2:
@@ -153,6 +153,19 @@ def cases(draw):
                 t["points"] = pts[:-1]
             else:
                 t["points"] = pts + [[min(v + 0.01, 0.3) for v in pts[0]]]
+        elif m == "points-reshape":
+            # the same numbers in another shape: k cell points of a 2D cell <-> 2k facet points (and back)
+            pts = t["points"]
+            tdim = specs.TDIM[t["cell"]]
+            flat = [v for p in pts for v in p]
+            if tdim == 2 and not t.get("facet"):
+                t["points"] = [[v] for v in flat]
+                t["facet"] = True
+            elif tdim == 2 and t.get("facet") and len(flat) % 2 == 0:
+                t["points"] = [flat[i:i + 2] for i in range(0, len(flat), 2)]
+                t["facet"] = False
+            else:
+                desc = "mutate:none"
         elif m == "metadata":
             I = t["integrals"][0]
             I["md"] = dict(I["md"], quadrature_degree=int(I["md"].get("quadrature_degree", 2)) + 1)
